@@ -187,13 +187,14 @@ theorem cluster_gate_iff (trusted : List (String × String)) (pods : List Pod) (
   · simp [ht]
 
 /-- An impersonated identity is issued only through the whole gate, evaluated on the pods the
-    informer holds (`informerPods`: the cluster's pods that are not in phase Failed). -/
+    active node authorizer of the caller's cluster holds (`Slot.active`: the old component during a
+    pending swap; `informerPods`: pods that are not in phase Failed). -/
 theorem impersonation_gate {κ : Type} {g : Fixes} {encode : CertData → κ} {srv : Server} {ctx : Ctx}
     {outs : List AuthOut} {req : Request} {now : Int} {chain : List (Entry κ)}
     (h : createCertificate g encode srv ctx outs req now = .ok chain) (himp : req.impersonated ≠ "") :
-    ∃ caller na all, authenticate ctx outs = some caller ∧ srv.nodeAuth = some na ∧
+    ∃ caller na slot all, authenticate ctx outs = some caller ∧ srv.nodeAuth = some na ∧
       effectiveSans srv ctx caller req = some [req.impersonated] ∧
-      lookupCluster (clusterID ctx) na.clusters = some all ∧
+      lookupCluster (clusterID ctx) na.clusters = some slot ∧ slot.active = some all ∧
       (caller.kube.podNamespace, caller.kube.podSA) ∈ na.trusted ∧
       ∃ td ns sa, parseIdentity req.impersonated = some (td, ns, sa) ∧
       ∃ cp, (informerPods all).find? (fun p => p.name = caller.kube.podName ∧ p.ns = caller.kube.podNamespace) = some cp ∧
@@ -205,12 +206,40 @@ theorem impersonation_gate {κ : Type} {g : Fixes} {encode : CertData → κ} {s
   · unfold impersonationOK at hok
     split at hok
     · simp at hok
-    · rename_i pods hl
-      exact ⟨caller, na, pods, hc, hna, hs, hl, (cluster_gate_iff _ _ _ _).1 hok⟩
+    · rename_i slot hl
+      split at hok
+      · simp at hok
+      · rename_i pods ha
+        exact ⟨caller, na, slot, pods, hc, hna, hs, hl, ha, (cluster_gate_iff _ _ _ _).1 hok⟩
 
 /-- A pod in phase Failed is never in the informer's view, a running one always is. -/
-theorem informerPods_mem (pods : List Pod) (p : Pod) : p ∈ informerPods pods ↔ p ∈ pods ∧ p.failed = false := by
+theorem informerPods_mem (pods : List Pod) (p : Pod) : p ∈ informerPods pods ↔ p ∈ pods ∧ p.phase ≠ "F" := by
   simp [informerPods]
+
+/-- Cluster credentials rotating (`clusterUpdated`): the old authorizer answers until the new one
+    has synced, then the new one; a new cluster without predecessor answers with an empty informer. -/
+theorem swap_active (old new : List Pod) :
+    ((Slot.mk (some { pods := old }) none).updated new).active = some old ∧
+    (((Slot.mk (some { pods := old }) none).updated new).synced).active = some new ∧
+    ((Slot.mk none none).updated new).active = some [] := by
+  simp [Slot.updated, Slot.synced, Slot.active, Comp.view]
+
+/-- A second rotation before the first one synced leaves the cluster without pod data (requests are
+    refused) until the second one syncs: fail closed. -/
+theorem double_update_fail_closed (old n1 n2 : List Pod) :
+    (((Slot.mk (some { pods := old }) none).updated n1).updated n2).active = some [] := by
+  simp [Slot.updated, Slot.active, Comp.view]
+
+/-- Since the fix a deleted cluster has no authorizer, whatever was pending ... -/
+theorem deleted_cluster_has_no_authorizer (s : Slot) : (s.deleted true).active = none := by
+  simp [Slot.deleted, Slot.active]
+
+/-- ... before it, deleting a cluster during a pending swap left the OLD authorizer answering for the
+    deleted cluster (and for a cluster added again under the same ID). -/
+theorem deleted_cluster_stale_witness_unfixed (old new again : List Pod) :
+    (((Slot.mk (some { pods := old }) none).updated new).deleted false).active = some old ∧
+    ((((Slot.mk (some { pods := old }) none).updated new).deleted false).added again).active = some old := by
+  simp [Slot.updated, Slot.deleted, Slot.added, Slot.active, Comp.view]
 
 /-- "Parses as a SPIFFE identity" means exactly the string shape `spiffe://<td>/ns/<ns>/sa/<sa>`. -/
 theorem parseIdentity_sound {s td ns sa : String} (h : parseIdentity s = some (td, ns, sa)) :
@@ -265,7 +294,7 @@ theorem parseIdentity_sound {s td ns sa : String} (h : parseIdentity s = some (t
 /-- Without a configured node authorizer (`CA_TRUSTED_NODE_ACCOUNTS` empty) every impersonation
     request is refused. -/
 theorem impersonation_needs_authorizer {κ : Type} (g : Fixes) (encode : CertData → κ) (ca : CA)
-    (clusters : List (String × List Pod)) (ctx : Ctx) (outs : List AuthOut) (req : Request) (now : Int)
+    (clusters : List (String × Slot)) (ctx : Ctx) (outs : List AuthOut) (req : Request) (now : Int)
     (himp : req.impersonated ≠ "") :
     createCertificate g encode (Server.new ca [] clusters) ctx outs req now = .err .unauthenticated := by
   unfold createCertificate
@@ -604,9 +633,10 @@ def exPods : List Pod :=
   [{ name := "zt", ns := "istio-system", uid := "u1", sa := "ztunnel", node := "n1" },
    { name := "p1", ns := "a", uid := "u2", sa := "b", node := "n1" },
    { name := "p2", ns := "c", uid := "u3", sa := "d", node := "n2" },
-   { name := "p3", ns := "e", uid := "u4", sa := "f", node := "n1", failed := true }]
+   { name := "p3", ns := "e", uid := "u4", sa := "f", node := "n1", phase := "F" },
+   { name := "p4", ns := "g", uid := "u5", sa := "h", node := "n1", phase := "S" }]
 
-def exSrv : Server := Server.new exCA [("istio-system", "ztunnel")] [("c1", exPods)]
+def exSrv : Server := Server.new exCA [("istio-system", "ztunnel")] [("c1", { cur := some { pods := exPods } })]
 
 def exNodeCaller : Caller :=
   { identities := ["spiffe://cluster.local/ns/istio-system/sa/ztunnel"],
